@@ -213,3 +213,92 @@ theorem foreign_attrs_kept (a : Attrs) (m : Meta) (k : String) (hk : k ≠ "geff
   lookup_setKey_other a "geff" k (dump m) hk
 
 end Geff.Meta
+
+/-! ### the non-validating decoder used by the specification oracle is a left inverse of `dump` -/
+namespace Geff.Meta
+
+theorem mapO_map_id {α β : Type} {f : β → Option α} {g : α → β} :
+    ∀ (xs : List α), (∀ x ∈ xs, f (g x) = some x) → mapO f (xs.map g) = some xs := by
+  intro xs
+  induction xs with
+  | nil => intro _; simp [mapO]
+  | cons x xs ih =>
+    intro h
+    simp [mapO, h x (by simp), ih (fun y hy => h y (by simp [hy]))]
+
+theorem ofDumpOptStr_dump (s : Option String) : ofDumpOptStr (some (optStrJ s)) = some s := by
+  cases s <;> simp [optStrJ, ofDumpOptStr]
+
+theorem ofDumpOptNum_dump (f : Option F) : ofDumpOptNum (some (optNumJ f)) = some f := by
+  cases f <;> simp [optNumJ, ofDumpOptNum]
+
+theorem ofDumpAxis_dump (a : Axis) : ofDumpAxis (dumpAxis a) = some a := by
+  obtain ⟨name, type, unit, min, max, scale, su, offset⟩ := a
+  simp only [dumpAxis, ofDumpAxis, lookup, String.reduceBEq, Bool.false_eq_true, ↓reduceIte, ofDumpStr,
+    ofDumpOptStr_dump, ofDumpOptNum_dump, bind, Option.bind, pure]
+
+theorem ofDumpProp_dump (p : PropMeta) : ofDumpProp (dumpProp p) = some p := by
+  obtain ⟨ident, dtype, vl, unit, name, desc⟩ := p
+  simp only [dumpProp, ofDumpProp, lookup, String.reduceBEq, Bool.false_eq_true, ↓reduceIte, ofDumpStr, ofDumpBool,
+    ofDumpOptStr_dump, bind, Option.bind, pure]
+
+theorem ofDumpRelated_dump (r : RelatedObject) : ofDumpRelated (dumpRelated r) = some r := by
+  obtain ⟨t, p, l⟩ := r
+  simp only [dumpRelated, ofDumpRelated, lookup, String.reduceBEq, Bool.false_eq_true, ↓reduceIte, ofDumpStr,
+    ofDumpOptStr_dump, bind, Option.bind, pure]
+
+theorem ofDumpHint_dump (h : DisplayHint) : ofDumpHint (dumpHint h) = some h := by
+  obtain ⟨a, b, c, d⟩ := h
+  simp only [dumpHint, ofDumpHint, lookup, String.reduceBEq, Bool.false_eq_true, ↓reduceIte, ofDumpStr,
+    ofDumpOptStr_dump, bind, Option.bind, pure]
+
+theorem ofDumpPropsDict_dump (d : List (String × PropMeta)) :
+    ofDumpPropsDict (some (dumpPropsDict d)) = some d := by
+  simp only [dumpPropsDict, ofDumpPropsDict]
+  apply mapO_map_id
+  intro kv _
+  simp [ofDumpProp_dump, Option.map]
+
+theorem ofDumpAxesOpt_dump (a : Option (List Axis)) : ofDumpAxesOpt (some (dumpAxesOpt a)) = some a := by
+  cases a with
+  | none => simp [dumpAxesOpt, ofDumpAxesOpt]
+  | some l =>
+    have : mapO ofDumpAxis (l.map dumpAxis) = some l := mapO_map_id l (fun a _ => ofDumpAxis_dump a)
+    simp [dumpAxesOpt, ofDumpAxesOpt, this]
+
+theorem ofDumpRelatedOpt_dump (a : Option (List RelatedObject)) :
+    ofDumpRelatedOpt (some (dumpRelatedOpt a)) = some a := by
+  cases a with
+  | none => simp [dumpRelatedOpt, ofDumpRelatedOpt]
+  | some l =>
+    have : mapO ofDumpRelated (l.map dumpRelated) = some l := mapO_map_id l (fun a _ => ofDumpRelated_dump a)
+    simp [dumpRelatedOpt, ofDumpRelatedOpt, this]
+
+theorem ofDumpTrackOpt_dump (t : Option (List (String × String))) :
+    ofDumpTrackOpt (some (dumpTrackOpt t)) = some t := by
+  cases t with
+  | none => simp [dumpTrackOpt, ofDumpTrackOpt]
+  | some l =>
+    have : mapO (fun (kv : String × J) => (ofDumpStr (some kv.2)).map (fun s => (kv.1, s)))
+        (l.map (fun kv => (kv.1, J.str kv.2))) = some l := by
+      apply mapO_map_id
+      intro kv _
+      simp [ofDumpStr]
+    simp [dumpTrackOpt, ofDumpTrackOpt, this]
+
+theorem ofDumpHintOpt_dump (h : Option DisplayHint) : ofDumpHintOpt (some (dumpHintOpt h)) = some h := by
+  cases h with
+  | none => simp [dumpHintOpt, ofDumpHintOpt]
+  | some h =>
+    have := ofDumpHint_dump h
+    unfold dumpHint at this
+    simp only [dumpHintOpt, dumpHint, ofDumpHintOpt, this, Option.map]
+
+/-- decoding a dump gives back exactly the value that was dumped — for every value, valid or not -/
+theorem ofDump_dump (m : Meta) : ofDump (dump m) = some m := by
+  obtain ⟨v, d, ax, n, e, sp, el, t, r, h, ex⟩ := m
+  simp only [dump, dumpFields, ofDump, lookup, String.reduceBEq, Bool.false_eq_true, ↓reduceIte, ofDumpStr, ofDumpBool,
+    ofDumpAxesOpt_dump, ofDumpPropsDict_dump, ofDumpOptStr_dump, ofDumpTrackOpt_dump, ofDumpRelatedOpt_dump,
+    ofDumpHintOpt_dump, ofDumpExtra, bind, Option.bind, pure]
+
+end Geff.Meta
